@@ -1,5 +1,9 @@
-use vkit::Check;
+mod c50;
+use vkit::{Check, Level};
 fn main() {
-    let checks: &[Check] = &[];
+    if std::env::args().nth(1).as_deref() == Some("--c50-child") {
+        c50::child_main();
+    }
+    let checks: &[Check] = &[Check { id: "C50", level: Level::Exploration, run: c50::run }];
     vkit::main(checks);
 }
